@@ -57,6 +57,12 @@ def monitor(case, il, sl):
         return ("bytes handed to the transport + buffered are not a sequence of frames: %s" % e, "c01-frames")
     if rest:
         return ("%d stray bytes after the last whole frame of the outbound stream: %s" % (len(rest), rest[:16].hex()), "c01-frames")
+    # frames the I/O thread composes itself must be well-formed inside too (the envelopes of client
+    # submissions are opaque here; their contents are C02 / C12)
+    for ft, ch, p in frs:
+        if ft == 1 and ch == 0 and amqp.method_ids(p) in ((10, 50), (10, 51)) and not refmon.strict_method_ok(p):
+            return ("a Connection.%s composed by the I/O thread is not a well-formed method frame (length octets do not match its %d argument bytes)" % (
+                "Close" if amqp.method_ids(p) == (10, 50) else "CloseOk", len(p) - 4), "c01-malformed")
     wire = [amqp.frame(ft, ch, p) for (ft, ch, p) in frs]
     # per handle: its buffers appear in submission order, each at most once, as a prefix
     for label, bufs in sent.items():
@@ -120,7 +126,9 @@ def gen_random(tier, seed):
                 ws = []
                 for _ in range(rng.randint(1, 4)):
                     x = rng.random()
-                    ws.append("wb" if x < 0.3 else "w:%d" % rng.choice([1, 2, 3, 5, 7, 8, 11, 13, 50, 100000]))
+                    # 6%: the transport fails (any kind of I/O error, incl. EINTR / timed out) - after the
+                    # short writes before it in the same script, i.e. with part of the buffer already taken
+                    ws.append(rng.choice(["err", "err:interrupted", "err:interrupted", "err:timedout", "err:brokenpipe", "err:other"]) if x < 0.06 else ("wb" if x < 0.3 else "w:%d" % rng.choice([1, 2, 3, 5, 7, 8, 11, 13, 50, 100000])))
                 g.op("wscript " + " ".join(ws))
                 g.op(rng.choice(["ev stream w", "write", "ev stream rw"]))
             elif r < 0.90:
@@ -243,8 +251,12 @@ def gen_exhaustive(tier, seed):
 
 def suites(tier, seed):
     return [
+        Suite("wire-e2e", "bp", lambda: __import__("props.c18", fromlist=["x"]).wire_cases(tier), monitor=__import__("props.c18", fromlist=["x"]).e2e_monitor, nontrivial=lambda c, il: True, compare=False, shards=4, timeout=300,
+              rule="real connection + I/O thread over the mock transport, publisher threads: 1.5 MiB and 6 MiB queued during a stall and then taken by the transport in partial writes of 256 KiB; a write call failing with EINTR after partial writes: every message on the wire once, intact, in order, whole frames (after a transport failure: a clean prefix)"),
         Suite("wire-random", "machine", lambda: gen_random(tier, seed), monitor=monitor, nontrivial=nontrivial, canon=mg.canon_nondet, candidate_ok=mg.candidate_ok,
-              rule="1-3 channels each submitting uniquely numbered frames (queue bounds 1..8), channel events in random order, transport scripts of short writes (1,2,3,5,7,8,11,13,50 bytes) and would-block episodes, I/O-thread frames (CancelOk, CloseOk) and a client close interleaved; everything flushed at the end"),
+              rule="1-3 channels each submitting uniquely numbered frames (queue bounds 1..8), channel events in random order, transport scripts of short writes (1,2,3,5,7,8,11,13,50 bytes), would-block episodes and I/O errors of several kinds after partial writes, I/O-thread frames (CancelOk, CloseOk) and a client close interleaved; everything flushed at the end"),
+        Suite("exception-frames", "machine", lambda: __import__("props.c07", fromlist=["x"]).gen_exc_text(tier, seed), monitor=monitor, nontrivial=lambda c, il: True, canon=mg.canon_nondet, candidate_ok=mg.candidate_ok,
+              rule="the Connection.Close frames the I/O thread composes for client exceptions, with reply texts of up to and beyond 255 bytes of 1-4-byte UTF-8 characters at every alignment: well-formed method frames, whole on the wire"),
         Suite("close-under-backlog", "machine", lambda: gen_close_backlog(tier, seed), monitor=monitor, nontrivial=lambda c, il: True, canon=mg.canon_nondet, candidate_ok=mg.candidate_ok,
               rule="1-6 numbered frames from 1-3 channels buffered, the transport takes a random number of bytes (frame boundary or mid-frame) and stalls; then one of {server Connection.Close, server Channel.Close, client Connection.Close, a not-allowed server method, a heartbeat} is processed with the backlog pending; then the transport drains. Monitor: written ++ buffered only ever grows; whole frames; per-handle order"),
         Suite("wire-exhaustive", "machine", lambda: gen_exhaustive(tier, seed), monitor=monitor, nontrivial=nontrivial, canon=mg.canon_nondet, candidate_ok=mg.candidate_ok, exhaustive=(tier != "quick"),
